@@ -9,7 +9,7 @@
 -/
 import YaraModel.Gen.Precedence
 import YaraModel.Lemmas.Cond
-import YaraModel.Lemmas.CondExec
+import YaraModel.Lemmas.CondExecAll
 namespace YaraModel.Cond
 open YaraModel YaraModel.C YaraModel.CondVm YaraModel.CondCompile YaraModel.Gen.VmOps YaraModel.Gen.Precedence
 
@@ -280,29 +280,33 @@ example : readBytes [(0, [1, 2, 3]), (3, [4, 5])] 2 2 = none ∧ readBytes [(0, 
 
 /-! ## (d) compile_correct -/
 
-/- **compile_correct** — FULL STATEMENT (long-term goal; proved below for the loop-free fragment):
+/- **compile_correct** — FULL STATEMENT (long-term goal):
 
-theorem compile_correct (env : Env) (henv : EnvOk env) (cond : Expr) (hwf : WF env (ctxOfEnv env) {} cond) :
+theorem compile_correct (env : Env) (henv : EnvOk env) (cond : Expr) (hwf : WF' env (ctxOfEnv env) {} cond) :
     ∃ fuel, modelVerdict env cond fuel = some (ruleVerdict env cond)
 
-   `modelVerdict` = run the code `compile` emits (mirror of the grammar.y actions) on the VM model whose pure opcodes
-   are `Gen.VmOps` (regenerated from exec.c); `ruleVerdict` = the specification.  `WF` (Model/CondCompile.lean) lists the
-   side conditions: well-typed, no floats / `P% of` (Float is opaque in Lean; finding F20), no integer equal to the
-   sentinel (F14), defined quantifiers (F18), 0/1-valued loop bodies and `or` left operands (F19).
-   Missing for the full statement: the three loop constructs (`forRange`, `forEnum`, `forOf`). -/
+   where WF' is WF without its two exclusions: floating-point sub-expressions (Lean's `Float` is opaque to proofs, so
+   `toVm`/`vmToFlt` round-trips cannot be established) and `P% of S` (computed in double precision by OP_OF_PERCENT;
+   finding F20).  Everything else — all operators, string queries, the `of` family, `for..in` over ranges and
+   enumerations, `for..of`, arbitrary nesting (up to the 4 loop levels the compiler allows) — is covered by
+   `compile_correct_partial` below.  The remaining clauses of WF are not restrictions of the fragment but the exact
+   conditions under which libyara's code is correct: they exclude the situations of findings F14 (an integer equal to
+   the sentinel), F18 (undefined quantifier), F19 (loop body / `or` left operand with a value other than 0/1) and the
+   INT64_MAX-ending range on which the iterator's `next++` overflows. -/
 
-/-- **compile_correct, loop-free fragment**: literals, filesize, externals, loop variables, module-undefined values,
-    `#a`, `#a in`, `@a[i]`, `!a[i]`, intN/uintN readers, unary/binary integer operators, comparisons (int, string),
-    string operators, `matches`, `$a`, `$a at`, `$a in`, `not`, `defined`, short-circuit `and` / `or` (jumps),
-    rule references, and the whole `of` family over string sets and rule sets (`N/all/any/none of S [in (..)] [at e]`).
-    For every environment and every such condition: running the emitted code on the VM model yields the verdict of the
-    specification. -/
-theorem compile_correct_loopfree_partial (env : Env) (henv : EnvOk env) (cond : Expr)
-    (hlf : loopFree cond = true) (hwf : WF env (ctxOfEnv env) {} cond) :
+/-- **compile_correct** (all constructs except floats and `P% of`): for every environment whose memory blocks lie in
+    the lower half of the address space and every condition satisfying `WF` (well-typed as the compiler types it; no
+    float, no `P% of`; none of the situations of findings F14/F18/F19), running the code that `compile` emits — the
+    mirror of grammar.y's actions: typed opcode selection, OP_STR_TO_BOOL, short-circuit jumps with their fix-ups,
+    end-of-list markers, the loop template with 3 internal + 1 user variable per nesting level and the
+    ITER_NEXT / ITER_CONDITION / ITER_END protocol — on the VM model, whose pure opcodes are `Gen.VmOps` as
+    REGENERATED from exec.c, terminates and yields exactly the verdict of the specification `eval` on the true match
+    sets.  Proved by structural recursion on the condition (`exec_all`), loops by induction on the remaining items. -/
+theorem compile_correct_partial (env : Env) (henv : EnvOk env) (cond : Expr)
+    (hwf : WF env (ctxOfEnv env) {} cond) :
     ∃ fuel, modelVerdict env cond fuel = some (ruleVerdict env cond) := by
   let c := ctxOfEnv env
-  have hrun := runs_boolpos (compile c cond) (tyOf c cond) _
-    (exec_loopfree env henv (compileRule c cond) cond c {} hlf hwf)
+  have hrun := runs_boolpos (compile c cond) (tyOf c cond) _ (exec_all env henv (compileRule c cond) cond c {} hwf)
   have hinv : MemInv c {} ({} : St).mem := by
     refine ⟨rfl, ?_, ?_⟩
     · intro k hk
@@ -317,16 +321,33 @@ theorem compile_correct_loopfree_partial (env : Env) (henv : EnvOk env) (cond : 
   simp only [verdictOf, List.append_nil, ruleVerdict]
   rw [← word_truth env.blocks _ _ (wf_typed env c {} cond hwf)]
 
-/-- non-vacuity: a condition with a string query, a comparison and a short-circuit `and` satisfies the hypotheses -/
+/-- non-vacuity (loop-free): a string query, a comparison and a short-circuit `and` -/
 example : let env : Env := ⟨[[(0, 2), (5, 2)]], [(0, [97, 98, 0, 0, 0, 97, 98])], 7, [], []⟩
     let cond := Expr.and (.found (.id 0)) (.cmp .lt (.count (.id 0)) (.int 3))
-    EnvOk env ∧ loopFree cond = true ∧ WF env (ctxOfEnv env) {} cond ∧ ruleVerdict env cond = true := by
-  refine ⟨?_, rfl, ?_, ?_⟩
+    EnvOk env ∧ WF env (ctxOfEnv env) {} cond ∧ ruleVerdict env cond = true := by
+  refine ⟨?_, ?_, ?_⟩
   · intro b hb
     simp at hb
     subst hb
     decide
   · simp [WF, SRefOk, tyOf, UNDEF]
   · simp [ruleVerdict, eval, Env.matchesOf, vCmp, cmpInt, vAnd, asBool, truthy]
+
+/-- non-vacuity (nested loops): `for any i in (2..2) : (for all of ($a,$b) : (@[i] == 5 or not $))` on a buffer where
+    `$a` matches at 0 and 5 and `$b` does not match -/
+example : let env : Env := ⟨[[(0, 2), (5, 2)], []], [(0, [97, 98, 0, 0, 0, 97, 98])], 7, [], []⟩
+    -- for any i in (2..2) : ( for all of ($a, $b) : ( @[i] == 5 or not $ ) )
+    let cond := Expr.forRange .any (.int 0) (.int 2) (.int 2)
+      (.forOf .all (.int 0) [0, 1] (.or (.cmp .eq (.offset .cur (.var 0)) (.int 5)) (.not (.found .cur))))
+    EnvOk env ∧ WF env (ctxOfEnv env) {} cond ∧ ruleVerdict env cond = true := by
+  refine ⟨?_, ?_, ?_⟩
+  · intro b hb
+    simp at hb
+    subst hb
+    decide
+  · simp [WF, SRefOk, tyOf, UNDEF, INT64_MIN, INT64_MAX, intRange, eval, ctxOfEnv, BoolWord, ValOk, vCmp, vOffset, nth,
+      Env.matchesOf, vOr, vNot, loopHolds, quantOf, quantHolds, cmpInt]
+  · simp [ruleVerdict, eval, Env.matchesOf, vCmp, cmpInt, vOr, vNot, asBool, truthy, intRange, loopHolds, quantOf, quantHolds,
+      countTrue, vOffset, nth]
 
 end YaraModel.Cond
